@@ -44,7 +44,7 @@ var c10Scenarios = []string{
 
 var c10Signing = map[string]bool{"callback-post-done": true, "callback-redirect-done": true, "callback-body-done": true, "attrquery": true, "metadata-signed": true}
 
-var c10KeyKinds = []string{"error", "timeout", "canceled", "nil", "nokey", "nocert", "emptycert", "errval"}
+var c10KeyKinds = []string{"error", "timeout", "canceled", "nil", "nokey", "zerokey", "nocert", "emptycert", "errval"}
 
 // c10KindsOf lists the fault kinds of an operation: a returned error; for lookups also an error accompanied by a usable value
 // (callers must go by the error); for the user-info setters also an error after part of the record was delivered.
@@ -245,6 +245,28 @@ func c10Run(c C10Case) c10Result {
 	if rep.Panic != "" {
 		v := ev.V("C10/panic:"+rep.PanicSite(), what+": handler panicked: %s", short(rep.Panic, 120))
 		res.vs = append(res.vs, v)
+		return res
+	}
+	// the faults that fired, by their effective kind
+	zeroOnly, zeroEvery := !algFired, true
+	nFired := 0
+	for _, cl := range calls {
+		if cl.Faulted {
+			nFired++
+			zeroOnly = zeroOnly && cl.Kind == "zerokey"
+		}
+	}
+	zeroOnly = zeroOnly && nFired > 0
+	for _, f := range c.Faults {
+		if f.Kind == "zerokey" && f.Occurrence != 0 {
+			zeroEvery = false
+		}
+	}
+	if zeroOnly && !(c10Signing[c.Scenario] && zeroEvery) {
+		// a key record that was never filled in is a defect of the key's content: only a use of the key can notice it. Where the
+		// request needs the certificate alone (the existing suite pins the certificate endpoint answering 200 next to an empty
+		// key) nothing but "no panic" is asserted; a request that signs must fail when every retrieval delivers such a record
+		// (with a single faulted retrieval the key that signs may be the one of another call).
 		return res
 	}
 	var resp *obs.ResponseInfo
